@@ -89,6 +89,14 @@ TParseParams ==
        ELSE Ev.n = CountParams(Ev.toks)
     /\ l' = l + 1 /\ UNCHANGED <<vars, pend>>
 
+\* C03: the same byte stream delivered under another segmentation: the digest
+\* of the whole transcript (messages sent and callbacks made, in order) must be
+\* the one of the first delivery (register 3)
+TSegRun ==
+    /\ More /\ Ev.k = "segrun" /\ pend = <<>>
+    /\ IF Ev.first THEN TLCSet(3, Ev.dig) ELSE TLCGet(3) = Ev.dig
+    /\ l' = l + 1 /\ UNCHANGED <<vars, pend>>
+
 \* a silent server step
 TServer ==
     /\ pend = <<>>
@@ -137,14 +145,14 @@ TFaultedClose ==
     /\ l' = l + 1
     /\ UNCHANGED <<cfg, ssl, mwi, cparams, inq, eof, faulted, stmts, portals, skip, hq, h, pend>>
 
-TNext == TReset \/ TPreamble \/ TGlobal \/ TParseParams \/ TApi \/ TSend \/ TEof \/ TLate \/ TServer \/ TMatch \/ TIdle
+TNext == TReset \/ TSegRun \/ TPreamble \/ TGlobal \/ TParseParams \/ TApi \/ TSend \/ TEof \/ TLate \/ TServer \/ TMatch \/ TIdle
          \/ TFault \/ TFaultedCb \/ TFaultedClose
 
 TSpec == TInit /\ [][TNext]_tvars
 
 ---------------------------------------------------------------------------
 \* high-water mark of l (register 1) and a description of the furthest state
-ASSUME TLCSet(1, 0) /\ TLCSet(2, "none")
+ASSUME TLCSet(1, 0) /\ TLCSet(2, "none") /\ TLCSet(3, "")
 
 HighWater ==
     IF l > TLCGet(1) \/ (l = TLCGet(1) /\ pend # <<>>)
